@@ -18,7 +18,7 @@ RULE = ('Each run draws a setting (serial / 2..6 simulated ranks with rank sched
         'either one explicit proposal (cluster, member) or a seeded random sweep; or a whole k-hybrid / k-medoids call '
         'with n_iters = 0..5 under one seed; or a reproducibility experiment (same call twice with unrelated calls, '
         'global-RNG draws and a different heap poison in between). Non-trivial: >= 2 clusters and >= 1 real proposal '
-        'processed; distinct = digest of configuration, data, proposal history and schedule.')
+        'processed; In the thorough tier a quarter of the runs use deeper bounds (up to 10-12 ranks, 120-150 frames, 30-36 trajectories, 16 centres). distinct = digest of configuration, data, proposal history and schedule.')
 BUDGET = {'quick': dict(runs=3000, wall_s=55, chunk=25), 'thorough': dict(runs=60000, wall_s=780, chunk=50)}
 COMPONENTS = {'real': ['enspara.cluster.kmedoids (_kmedoids_pam_update, proposer, input tree)', 'enspara.cluster.hybrid',
                        'enspara.mpi.ops (randind, distribute_frame, striped_array_mean)', 'compiled libdist kernels'],
@@ -48,7 +48,9 @@ def scenario(ctx):
     t = ctx.tape
     e = C.E()
     mpi = t.flag(2, 5)
-    P = C.Problem(ctx, want_ranks=mpi, max_ranks=6, max_frames=48)
+    deep = ctx.tier == 'thorough' and t.flag(1, 4)
+    P = C.Problem(ctx, want_ranks=mpi, max_ranks=10 if deep else 6, max_frames=120 if deep else 48, max_traj=30 if deep else 24,
+                  max_len=12 if deep else 9)
     if P.N == 1:
         mpi = False
     k, cutoff = P.draw_stop(ctx)
